@@ -1,7 +1,7 @@
 //! Scenario generators and the generic case runner shared by the flow properties.
 
 use crate::common::{Args, PanicInfo, Report, Rng};
-use crate::model::flow::{analyze, Flow};
+use crate::model::flow::{analyze_multi, Flow};
 use crate::props::monitors::Mon;
 use crate::sim::driver::*;
 use crate::sim::omaha::ServerKeys;
@@ -88,9 +88,13 @@ pub fn run_case(case: &FlowCase, rng: &mut Rng) -> CaseRun {
 }
 
 pub fn finish_run(case: &FlowCase, w: W, d: Driver, end: RunEnd) -> CaseRun {
+    finish_run_multi(case, std::slice::from_ref(&case.setup), w, d, end)
+}
+
+pub fn finish_run_multi(case: &FlowCase, setups: &[Setup], w: W, d: Driver, end: RunEnd) -> CaseRun {
     let flow = {
         let g = lock(&w);
-        analyze(&g.log, &case.setup, &case.preload)
+        analyze_multi(&g.log, setups, &case.preload)
     };
     let interactions = lock(&w).interactions;
     CaseRun {
@@ -466,4 +470,47 @@ pub fn gen_history(rng: &mut Rng, cfg: &HistCfg) -> FlowCase {
     case.shape = shape;
     case.key_seed = rng.next_u64();
     case
+}
+
+
+/// Run the case; then kill the process (if it did not die already), restart it on the surviving
+/// storage with `next_setup` and run the new incarnation until it has asked the policy for the
+/// next check time (start mode) or for `extra_idle` further Idle events.
+pub fn run_case_restart(case: &FlowCase, next_setups: &[Setup], rng: &mut Rng, extra_idle: usize) -> CaseRun {
+    let w = make_world(case);
+    let mut d = Driver::new(&w, &case.setup);
+    d.max_steps = case.max_steps;
+    let stop_idle = case.stop_idle;
+    let mut end = d.run(case.sched, rng, |d| d.count_state(&StateSnap::Idle) >= stop_idle);
+    let mut setups = vec![case.setup.clone()];
+    let mut panicked = d.panicked.clone();
+    let mut lost = d.lost_wakes.clone();
+    for ns in next_setups {
+        if panicked.is_some() {
+            break;
+        }
+        if !d.crashed() {
+            d.crash_now();
+        }
+        drop(d);
+        setups.push(ns.clone());
+        d = Driver::restart(&w, ns);
+        d.max_steps = case.max_steps;
+        let base_next = lock(&w).n_next;
+        end = d.run(case.sched, rng, |d| {
+            if extra_idle > 0 {
+                d.count_state(&StateSnap::Idle) >= extra_idle
+            } else {
+                lock(&d.w).n_next > base_next
+            }
+        });
+        if d.panicked.is_some() {
+            panicked = d.panicked.clone();
+        }
+        lost.extend(d.lost_wakes.clone());
+    }
+    let mut run = finish_run_multi(case, &setups, w, d, end);
+    run.panicked = panicked;
+    run.lost_wakes = lost;
+    run
 }
